@@ -259,6 +259,45 @@ type Visit struct {
 	Val abs.Value
 }
 
+// ApplySet performs a set operation through an iterator obtained earlier.
+func ApplySet(it *simdjson.Iter, o Op) (refused bool, err error) {
+	defer func() {
+		if r := recover(); r != nil {
+			err = fmt.Errorf("PANIC in %s: %v", o, r)
+		}
+	}()
+	var serr error
+	switch o.SetK {
+	case "null":
+		serr = it.SetNull()
+	case "bool":
+		serr = it.SetBool(o.X.B)
+	case "int":
+		v, perr := strconv.ParseInt(string(o.X.Bytes()), 10, 64)
+		if perr != nil {
+			return false, perr
+		}
+		serr = it.SetInt(v)
+	case "uint":
+		v, perr := strconv.ParseUint(string(o.X.Bytes()), 10, 64)
+		if perr != nil {
+			return false, perr
+		}
+		serr = it.SetUInt(v)
+	case "float":
+		v, perr := strconv.ParseFloat(string(o.X.Bytes()), 64)
+		if perr != nil {
+			return false, perr
+		}
+		serr = it.SetFloat(v)
+	case "str":
+		serr = it.SetStringBytes(o.X.Bytes())
+	default:
+		return false, fmt.Errorf("unknown set kind %s", o.SetK)
+	}
+	return serr != nil, nil
+}
+
 // Apply performs op on pj through the public API.  It returns whether the
 // API reported an error and the callbacks it made.
 func Apply(pj *simdjson.ParsedJson, o Op, readVal func(it *simdjson.Iter) (abs.Value, error)) (refused bool, visits []Visit, err error) {
